@@ -98,5 +98,25 @@ impl SocketAddr {
     pub fn is_ipv6(&self) -> (r: bool) ensures r == self.spec_is_ipv6() { self.ipaddr.is_ipv6() }
 }
 
-/// canonical text of an IP address (std `Display`): uninterpreted; `IpAddr::from_str` inverts it (assumed where used)
-pub uninterp spec fn ip_text(ip: IpAddr) -> Seq<char>;
+/// canonical text of an IP address (std `Display` / `to_string`): the content of an uninterpreted `String`; `IpAddr::from_str`
+/// inverts it (assumed where used). `Ipv4Addr` / `Ipv6Addr` print like the `IpAddr` that wraps them.
+pub uninterp spec fn ip_string(ip: IpAddr) -> String;
+pub open spec fn ip_text(ip: IpAddr) -> Seq<char> { ip_string(ip)@ }
+impl IpAddr {
+    pub open spec fn spec_to_string(&self) -> String { ip_string(*self) }
+    #[verifier::external_body]
+    #[verifier::when_used_as_spec(spec_to_string)]
+    pub fn to_string(&self) -> (r: String) ensures r == self.spec_to_string(), r@ == ip_text(*self) { unimplemented!() }
+}
+impl Ipv4Addr {
+    pub open spec fn spec_to_string(&self) -> String { ip_string(IpAddr::V4(*self)) }
+    #[verifier::external_body]
+    #[verifier::when_used_as_spec(spec_to_string)]
+    pub fn to_string(&self) -> (r: String) ensures r == self.spec_to_string(), r@ == ip_text(IpAddr::V4(*self)) { unimplemented!() }
+}
+impl Ipv6Addr {
+    pub open spec fn spec_to_string(&self) -> String { ip_string(IpAddr::V6(*self)) }
+    #[verifier::external_body]
+    #[verifier::when_used_as_spec(spec_to_string)]
+    pub fn to_string(&self) -> (r: String) ensures r == self.spec_to_string(), r@ == ip_text(IpAddr::V6(*self)) { unimplemented!() }
+}
